@@ -415,6 +415,30 @@ def rule_loops(s, loops):
     out.append(s[pos:])
     return ''.join(out), fired, counts
 
+def rule_cut_goto(s, cuts):
+    """R-cut: `goto L;` inside function f -> `__verif_cut_backjump();` for the listed backward
+    jumps (meta cut_goto {"f": ["L"]}).  The harness defines __verif_cut_backjump(): it asserts
+    that the retry re-enters the function in a state already covered, then ends the path."""
+    if not cuts:
+        return s, 0
+    toks = tokenize(s)
+    funcs = find_functions(toks)
+    edits = []
+    n = 0
+    for name, ds, bs, be in funcs:
+        if name not in cuts: continue
+        for i in range(bs, be):
+            if toks[i][0] == 'goto' and toks[i + 1][0] in cuts[name] and toks[i + 2][0] == ';':
+                edits.append((toks[i][1], toks[i + 2][2])); n += 1
+    want = sum(len(v) for v in cuts.values())
+    if n < want:
+        raise ExtractionError('cut_goto: %d sites found, expected at least %d' % (n, want))
+    out = []; pos = 0
+    for a, b in sorted(edits):
+        out.append(s[pos:a]); out.append('__verif_cut_backjump();'); pos = b
+    out.append(s[pos:])
+    return ''.join(out), n
+
 def rule_rmw_extra(s, extra):
     """k-th __VERIF_RMW_EXTRA token inside function f -> ', <extra assigns>' (meta rmw_extra {"f#k": "a, b"}) or nothing"""
     if '__VERIF_RMW_EXTRA' not in s:
@@ -469,6 +493,7 @@ def extract(meta, harness_path, workdir, native=False):
     fired = {}
     sliced, names = rule_named(sliced)
     sliced, fired['R-rmwx'] = rule_rmw_extra(sliced, meta.get('rmw_extra', {}))
+    sliced, fired['R-cut'] = rule_cut_goto(sliced, meta.get('cut_goto', {}))
     sliced, fired['R-trap'] = rule_trap(sliced)
     sliced, fired['R-ovl'] = rule_ovl(sliced)
     sliced, fired['R-apply'] = rule_apply(sliced)
